@@ -205,3 +205,13 @@ pub fn c18_build(mut blocks: Vec<C18Block>) -> Vec<C18Block> {
     let _ = &currentwall;
     blocks
 }
+
+// ---- C07: the frame fraction applied to the glazing term as well
+pub fn c07_u(du: f32, ff: f32, uf: f32, ug: f32) -> Option<f32> {
+    Some((1.0 + du / 100.0) * (uf * ff + ug * ff))
+}
+
+// ---- C06: exterior surface resistance forgotten
+pub fn c06_u(r: f32, rsi: f32) -> Option<f32> {
+    Some(1.0 / (r + rsi))
+}
